@@ -292,7 +292,9 @@ class Style(str):
         return self.apply(self.value)
 
     def __format__(self, format_spec: str) -> str:
-        return self.apply(str(self), fmt=format_spec)
+        # format the plain text, then style it: formatting the already styled
+        # string would pad/truncate by the length of the escape sequences
+        return self.apply(self.value, fmt=format_spec)
 
     def __repr__(self) -> str:
         text = self.value
